@@ -302,8 +302,8 @@ Section P.
   Proof.
     intros r I. destruct I as [nd ndd inc perm srt HR].
     constructor; simpl; auto.
-    - rewrite isort_perm. auto.
-    - intros _. apply isort_sorted.
+    - rewrite msort_perm. auto.
+    - intros _. apply msort_sorted.
   Qed.
 
   Lemma live_sweep : forall r k, live (sweep V r) k = live r k.
@@ -327,7 +327,7 @@ Section P.
       - repeat match goal with |- _ /\ _ => split end; auto using inv_sweep, live_sweep. }
     clearbody r1. destruct (r_sorted V r1) eqn:S.
     - repeat match goal with |- _ /\ _ => split end; auto. apply I1. auto.
-    - repeat match goal with |- _ /\ _ => split end; auto using inv_sort. simpl. apply isort_sorted.
+    - repeat match goal with |- _ /\ _ => split end; auto using inv_sort. simpl. apply msort_sorted.
   Qed.
 
   (* Len() = 0 exactly when there is no live member *)
